@@ -32,7 +32,28 @@ VALUES = [0, 1, 2, 3, 4, None, 'a', 'b', ['big', 0], ['str', 'ab'], ['tuple', 0,
 NUMERIC = [0, 1, 2, -1, -2, 1.0, 2.5, ['np', 1.5], ['np', 2.5], ['np', 1.0], ['np', 2.5]]
 
 
+# values that are EQUAL across types / signs / representations but are different items: an operator hands on the item it was given
+XTYPE = [1, 1.0, True, 0, 0.0, -0.0, False, 7, 7.0, ['dec', '2.5'], ['dec', '2.50'], ['dec', '2.5']]
+
+
+def strict(a, b):
+    """the very same value: same type, same sign of zero, same representation (Decimal('2.5') vs Decimal('2.50'))"""
+    if type(a) is not type(b):
+        return False
+    if isinstance(a, (list, tuple)):
+        return len(a) == len(b) and all(strict(x, y) for x, y in zip(a, b))
+    if isinstance(a, float):
+        import math
+        return (a != a and b != b) or (a == b and math.copysign(1, a) == math.copysign(1, b))
+    if type(a).__name__ == 'Decimal':
+        return str(a) == str(b)
+    return a == b
+
+
 def dec(v):
+    if isinstance(v, list) and v and v[0] == 'dec':
+        import decimal
+        return decimal.Decimal(v[1])
     if isinstance(v, list) and v and v[0] == 'np':
         import numpy
         return numpy.float64(v[1])       # comparisons return numpy.bool_, not the bool singletons
@@ -120,7 +141,7 @@ def judge(op, xs, got, ctx):
         if len(got) != -(-len(xs) // n):
             raise Violation('number of batches is not ceil(len/n)', got=got, **ctx)
         return
-    if not cmp.same_seq(got, exp, approx=False):
+    if not (len(got) == len(exp) and all(strict(a, b) for a, b in zip(got, exp))):
         raise Violation('%s differs from its list definition' % k, input=xs, expected=exp, got=got, **ctx)
 
 
@@ -157,7 +178,7 @@ def big_batch_enum():
 @st.composite
 def seq_case(draw):
     op = draw(st.sampled_from(OPS))
-    pool = NUMERIC if draw(st.integers(0, 4)) == 0 else VALUES
+    pool = [VALUES, VALUES, VALUES, NUMERIC, XTYPE][draw(st.integers(0, 4))]
     xs = draw(st.lists(st.sampled_from(pool), min_size=draw(st.sampled_from([0, 0, 2, 5])), max_size=12))
     return {'op': op, 'xs': xs}
 
@@ -194,7 +215,7 @@ def keyed_case(draw):
     if draw(st.booleans()):
         nk = draw(st.integers(1, 4))
         ks = draw(st.lists(st.integers(0, nk - 1), min_size=draw(st.sampled_from([1, 4, 8])), max_size=18))
-        vals = draw(st.lists(st.sampled_from(NUMERIC if draw(st.integers(0, 4)) == 0 else VALUES), min_size=len(ks), max_size=len(ks)))
+        vals = draw(st.lists(st.sampled_from([VALUES, VALUES, VALUES, NUMERIC, XTYPE][draw(st.integers(0, 4))]), min_size=len(ks), max_size=len(ks)))
         return {'op': op, 'driver': 'grouped', 'items': [[k, v] for k, v in zip(ks, vals)]}
     nl = draw(st.integers(1, 6))
     lifetimes = [[draw(st.sampled_from(c02.SLOTS)), draw(st.lists(st.sampled_from(VALUES), max_size=7))] for _ in range(nl)]
@@ -225,6 +246,42 @@ def check_keyed(case):
     if any(v >= 2 for v in slots.values()):
         labels.append('slot-reuse')
     return {'nontrivial': nt and len(pairs) >= 2, 'labels': labels}
+
+
+# ------------------------------------------------------------------ many keys, most of them open but empty
+
+@st.composite
+def many_case(draw):
+    return {'op': draw(st.sampled_from(OPS)), 'nk': draw(st.sampled_from([130, 200, 260, 400])), 'seed': draw(st.integers(0, 11)),
+            'empty_mod': draw(st.sampled_from([2, 3, 5]))}
+
+
+def check_many(case):
+    """Hundreds of keys alive at once under group_by, a filter in front of the operator leaves many of them open but without
+    any item (their state slots are allocated and never written): every key is still judged against its own list definition."""
+    op, nk, seed = case['op'], case['nk'], case['seed']
+    items = []
+    for j in range(3):
+        for k in range(nk):
+            if j < (k * 7 + seed) % 4:
+                items.append((k, (k + j + seed) % 5, (k + seed) % case['empty_mod'] != 0))
+    # keys whose items are all rejected by the filter: created by group_by, never fed
+    for k in range(nk):
+        if not any(i[0] == k for i in items):
+            items.append((k, 0, False))
+    head, tail = [], []
+    r = drive.store(items, [rs.ops.group_by(lambda i: i[0], [rs.ops.filter(lambda i: i[2]), rs.ops.map(lambda i: i[1]), drive.tap(head),
+                                                              build(op), drive.tap(tail)])])
+    ctx = dict(case)
+    H.require_clean(r, 'many keys ' + op[0], **ctx)
+    pairs = c02.pair_lifetimes(head, tail, ctx)
+    if len(pairs) != nk:
+        raise Violation('%d key lifetimes for %d keys' % (len(pairs), nk), **ctx)
+    empty = 0
+    for h, t in pairs:
+        judge(op, h['items'], t['items'], dict(ctx, key=h['key']))
+        empty += not h['items']
+    return {'nontrivial': empty >= 128, 'labels': ['op:' + op[0], 'keys=%d' % nk, 'empty>=128' if empty >= 128 else 'empty<128']}
 
 
 # ------------------------------------------------------------------ sort (plain only)
@@ -269,6 +326,8 @@ def subs(tier):
             doc='one sequence through one operator: with_memory_store and (where supported) plain, vs list definition'),
         Sub('keyed', check_keyed, gen=keyed_case, examples={'quick': 1500, 'thorough': 150000},
             doc='per key under group_by with interleaved keys / raw lifetimes on re-used slots, vs list definition per lifetime'),
+        Sub('many_keys', check_many, gen=many_case, examples={'quick': 120, 'thorough': 4000},
+            doc='130-400 keys alive under group_by, many of them open but empty behind a filter; every key vs its list definition'),
         Sub('sort', check_sort, gen=sort_case, examples={'quick': 800, 'thorough': 50000},
             doc='sort on plain observables: permutation, monotone keys, stability (colliding keys, reverse)'),
         Sub('enum', check_single, enum=enum, doc='every sequence over {0,1,None} up to the bound x every operator x every parameter'),
